@@ -23,6 +23,12 @@ TRUSTED = ["model of binrw 0.14 directive semantics in pv/wire.py (cross-checked
 TYPES = ["chardat::CharacterData", "chardat::CustomizeData", "dat::DatHeader", "gearsets::GearSlot", "gearsets::GearSet", "gearsets::GearSets"]
 
 
+SLOT_ORDER = ["MainHand", "SecondaryHand", "Head", "Body", "Hands", "Waist", "Legs", "Feet", "Bracelets", "Necklace", "Earrings", "Ring1", "Ring2", "Soul"]
+# (reader converter, writer converter) pairs confirmed as inverses by reading
+CODEC_PAIRS = {("read_bool_from", "write_bool_as"), ("read_string", "write_string"), ("convert_id_opt", "convert_opt_id"), ("convert_from_gear_id", "convert_to_gear_id"),
+               ("convert_to_string", "convert_from_string"), ("convert_from_slots", "convert_to_slots"), ("convert_from_gearsets", "convert_to_gearsets")}
+
+
 def run(ctx):
     prog = ctx.prog
     wm = model(ctx)
@@ -32,6 +38,7 @@ def run(ctx):
     ctx.decided("constants: key 0x73, 100 sets, 14 slots, 164-byte comment, magics")
     ctx.decided("checksum provenance and update expression")
     ctx.decided("XOR key on both paths")
+    ctx.decided("field converters are the reference inverse pairs; slot positions equal the documented order (CODEC, SLOTPOS)")
     ctx.not_decided("checksum values; inverse-ness of the id marker (| 1_000_000 / & !1_000_000 is not invertible for ids sharing those bits); canonical round trip on all inputs")
     n = w1(ctx, TYPES)
     ctx.floor("W1", "types with reference layouts", n, 6)
@@ -39,6 +46,16 @@ def run(ctx):
     for t, fl in (("chardat::CharacterData", 8), ("chardat::CustomizeData", 27), ("dat::DatHeader", 5), ("gearsets::GearSlot", 7), ("gearsets::GearSet", 5), ("gearsets::GearSets", 4)):
         d = w2(ctx, [t])
         ctx.floor("W2", f"field comparisons decided for {t}", d, fl)
+
+    # ---- CODEC: field converters come in the inverse pairs of the reference
+    from ..wrules import w_codec
+
+    n_c = w_codec(ctx, ["chardat::CharacterData", "chardat::CustomizeData", "gearsets::GearSlot", "gearsets::GearSet", "gearsets::GearSets"], CODEC_PAIRS)
+    ctx.floor("CODEC", "converted fields of the preset and gear-set records", n_c, 8)
+    cb_ = prog.body("chardat::CharacterData::calc_checksum")
+    if cb_:
+        enc = sorted({(t_.get("res") or "").split("::")[-1] for _bi, t_ in cb_.calls() if (t_.get("res") or "").startswith("common_file_operations::") or (t_.get("res") or "").startswith("chardat::")} - {"calc_checksum"})
+        ctx.ob("CODEC", "checksum-comment-encoder", "write_string" in enc and all(e_ in ("write_string", "write_bool_as") for e_ in enc), f"calc_checksum encodes its input with local helpers {enc}; the comment must go through write_string, the converter of the comment field", cb_.file, cb_.line)
 
     # ---- CONST
     for path, want, what in (
@@ -159,6 +176,10 @@ def run(ctx):
     if not tb or not slots:
         ctx.fail_closed("SLOTPOS", "TryFrom<usize> for GearSlotType / GearSlotType not found")
     else:
+        # the record order of the 14 slots in GEARSET.DAT (the game's equipment-slot order, Waist kept for legacy files)
+        got_order = dict(slots)
+        for pos, name in enumerate(SLOT_ORDER):
+            ctx.ob("SLOTPOS", f"reference|{name}", got_order.get(name) == pos, f"GearSlotType::{name} = {got_order.get(name)}; its record is number {pos} of the 14 in the file", "src/gearsets.rs", None, sample=(name == "Earrings"))
         t = Table(tb)
         if not t.is_table:
             ctx.fail_closed("SLOTPOS", "TryFrom<usize> for GearSlotType is not a loop-free decision table over its argument")
